@@ -231,6 +231,44 @@ Proof.
   - unfold generate_hotp, generate_hotp_with in H. rewrite Hk in H. cbn [obind] in H. discriminate H.
 Qed.
 
+(** the same for TOTP: a code generated for timestamp t validates at t (and at any skew whose
+    window does not reach below step 0) with the request's other fields *)
+Theorem rest_totp_pair now q code ts c su k sk c0 :
+  (0 < g_timestamp q < 2 ^ 62)%Z ->
+  totp_generation_core now q = (mkResp 200 (PCode code ts c su), k) -> sk <= 10 ->
+  sk <= Z.to_N (g_timestamp q) / (if g_period q =? 0 then 30 else g_period q) ->
+  ts = Some (g_timestamp q) /\
+  exists k', totp_validation_core now (mkValReq (g_secret q) (g_timestamp q) c0 code (g_digits q) (g_period q) sk (g_algorithm q))
+             = (mkResp 200 (PValid true), k').
+Proof.
+  intros Ht H Hsk Hn. unfold totp_generation_core in H.
+  destruct (blank (g_secret q)) eqn:Hb; [discriminate H|].
+  destruct (algorithm_from_str_alg (g_algorithm q)) as [a Ha]. rewrite Ha in H. cbv zeta in H.
+  replace (0 <? g_timestamp q)%Z with true in H by lia.
+  unfold generate_totp in H. rewrite (generate_totp_is_hotp hmac hmac_length hmac_wf) in H by lia. cbn [p_period] in H.
+  assert (eff30 (if g_period q =? 0 then 30 else g_period q) = eff30 (g_period q)) as E30.
+  { unfold eff30. destruct (g_period q =? 0) eqn:E; [reflexivity|rewrite E; reflexivity]. }
+  rewrite E30 in H.
+  destruct (decode_secret (trim_space (g_secret q))) as [key|e|] eqn:Hk.
+  - rewrite (generate_hotp_value hmac hmac_length hmac_wf _ key) in H by (try assumption; apply digits_from_str_valid).
+    inversion H; subst code. split; [reflexivity|].
+    unfold totp_validation_core. cbn [v_secret v_code v_timestamp v_digits v_period v_skew v_algorithm]. rewrite Hb.
+    rewrite code_not_blank by (pose proof (digits_from_str_valid (g_digits q)) as V; unfold valid_digits in V; lia).
+    cbv zeta. rewrite Ha. replace (0 <? g_timestamp q)%Z with true by lia.
+    assert (sk <= Z.to_N (g_timestamp q) / eff30 (g_period q)) as Hn' by (unfold eff30; exact Hn).
+    pose proof (validate_totp_iff hmac hmac_length hmac_wf (trim_space (g_secret q)) key
+                  (hotp_value hmac a key (Z.to_N (g_timestamp q) / eff30 (g_period q)) (N.to_nat (digits_from_str (g_digits q))))
+                  (g_timestamp q) (digits_from_str (g_digits q)) (g_period q) sk a Hk (digits_from_str_valid _) Hsk
+                  (ltac:(lia)) Hn') as [_ Hacc].
+    assert (fst (validate_totp_with hmac (trim_space (g_secret q))
+                   (hotp_value hmac a key (Z.to_N (g_timestamp q) / eff30 (g_period q)) (N.to_nat (digits_from_str (g_digits q))))
+                   (g_timestamp q) (Some (mkParam (digits_from_str (g_digits q)) (g_period q) sk (N_of_alg a)))) = Ok (true, None)) as Hv.
+    { apply Hacc. exists (Z.to_N (g_timestamp q) / eff30 (g_period q)). split; [lia|reflexivity]. }
+    unfold validate_totp, verdict_bool. rewrite Hv. eexists. reflexivity.
+  - unfold generate_hotp_with in H. rewrite Hk in H. cbn [obind] in H. discriminate H.
+  - unfold generate_hotp_with in H. rewrite Hk in H. cbn [obind] in H. discriminate H.
+Qed.
+
 Lemma ocra_prepare_early secret code raw need suite input :
   match ocra_prepare secret code raw need suite input with inr e => status (fst e) <> 200 | inl _ => True end.
 Proof.
